@@ -384,10 +384,10 @@ def run(tier, seed):
         flagged += part.pop('flagged', [])
         rep.merge(part)
     ex = rep.counters.get('executions', 0)
-    multi = [h for h in hs if h[5] >= 2]
-    if ex < len(tasks) * 2 or len(multi) < len(hs) // 2:
-        rep.harness_error("vacuous: %d executions, only %d of %d harness runs saw >= 2 distinct "
-                          "outcomes" % (ex, len(multi), len(hs)))
+    multi = set(h[0] for h in hs if h[5] >= 2)
+    if ex < len(tasks) * 2 or len(multi) < 3:
+        rep.harness_error("vacuous: %d executions, only %d harnesses (%s) saw >= 2 distinct "
+                          "outcomes" % (ex, len(multi), sorted(multi)))
     capped = [h[0] for h in hs if h[3]]
     return rep.finish(dict(
         states=ex, transitions=rep.counters.get('schedule_points', 0),
